@@ -243,7 +243,7 @@ func DefaultConfig() *Config {
 			"github.com/gogo/protobuf/proto", "github.com/golang/protobuf/proto",
 			"go.etcd.io/etcd/clientv3$", "go.etcd.io/etcd/etcdserver/etcdserverpb", "go.etcd.io/etcd/mvcc/mvccpb",
 			"github.com/coreos/go-semver", "github.com/docker/go-units", "github.com/phf/go-queue",
-			"internal/bytealg$", "internal/itoa$", "github.com/google/btree", "math/bits$", "github.com/montanaflynn/stats",
+			"internal/bytealg$", "internal/itoa$", "path/filepath$", "net/url$", "internal/filepathlite$", "internal/stringslite$", "github.com/google/btree", "math/bits$", "github.com/montanaflynn/stats",
 		},
 		InitPkgs: []string{
 			"github.com/tikv/pd", "github.com/pingcap/errors", "strconv$", "unicode$", "math$", "sort$", "strings$", "bytes$",
